@@ -112,6 +112,30 @@ def sample {D A : Type} (sp : Spec D A) (n : Nat) (r : Run D A) : Run D A :=
   let r := ensureInit sp r
   sampleLoop sp n { r with obj := sp.preSample r.obj }
 
+/-! ### batching (`sample(Ns, batch_size=b, sample_path=…)`, class `_BatchHandler`) -/
+
+/-- `_BatchHandler.add_sample`: append to the current batch; when it holds `b` samples write it to
+    the next file and clear it.  State: (current batch, files written so far). -/
+def batchAdd (b : Nat) (p : Val) (st : List Val × List (List Val)) : List Val × List (List Val) :=
+  let cur := st.1 ++ [p]
+  if cur.length ≥ b then ([], st.2 ++ [cur]) else (cur, st.2)
+
+/-- the loop of `sample` with `batch_size = b > 0`: the loop body of `sample`, plus
+    `batch_handler.add_sample(self.current_point)` (between the store and the callback) -/
+def batchLoop {D A : Type} (sp : Spec D A) (b : Nat) :
+    Nat → Run D A × (List Val × List (List Val)) → Run D A × (List Val × List (List Val))
+  | 0, x => x
+  | n + 1, (r, bs) =>
+    let r' := oneStep sp r
+    batchLoop sp b n (r', batchAdd b (point r'.obj) bs)
+
+/-- `Sampler.sample(Ns, batch_size=b)` with `b > 0`: a new batch handler per call; the remainder of
+    an incomplete last batch is *not* written (the code never calls `finalize`). -/
+def sampleBatched {D A : Type} (sp : Spec D A) (n b : Nat) (r : Run D A) : Run D A × List (List Val) :=
+  let r := ensureInit sp r
+  let res := batchLoop sp b n ({ r with obj := sp.preSample r.obj }, ([], []))
+  (res.1, res.2.2)
+
 /-- body of the warm-up loop: step, tune at tuning intervals (before the acceptance record of
     this step is appended), then store and call back. -/
 def warmStep {D A : Type} (sp : Spec D A) (ti idx : Nat) (r : Run D A) : Run D A :=
